@@ -291,9 +291,18 @@ def cfgdiff_unit():
 
 KIND_HEAVY = {}
 
+
+def interp_witness(h, obs):
+    import props
+    crate = os.path.join(WORK, 'std', 'interp')
+    ops = interp.opcode_table(driver.REPO)
+    want = obs[0]['name'].strip('"') if obs else None
+    return interp.witness(crate, h, ops.items(), props.replay_tool(), want=want)
+
+
 UNITS = {
     'interp': dict(run=kani_unit(interp.generate, harness_file='src/interpreter/harnesses.rs'),
-                   witness=None),
+                   witness=lambda h, obs: interp_witness(h, obs)),
     'codec': dict(run=kani_unit(codec.generate, harness_file='src/lib.rs')),
     'disasm': dict(run=kani_unit(disasm.generate, harness_file='src/disassembler/harnesses.rs')),
     'asm': dict(run=kani_unit(asm.generate, harness_file='src/assembler.rs')),
